@@ -622,7 +622,46 @@ func (f *FeaturesByID) FindReferences(id b6.FeatureID, typed ...b6.FeatureType) 
 			features = append(features, i.Feature())
 		}
 	}
+	if id.Type == b6.FeatureTypePath && (len(typed) == 0 || slices.Contains(typed, b6.FeatureTypeArea)) {
+		for _, area := range f.findAreasByPath(id) {
+			features = append(features, area)
+		}
+	}
 	return b6.NewFeatureIterator(features)
+}
+
+// findAreasByPath returns the areas that have the given path as one of
+// their loops.
+func (f *FeaturesByID) findAreasByPath(id b6.FeatureID) []b6.AreaFeature {
+	areas := make([]b6.AreaFeature, 0, 1)
+	for _, fb := range f.features[b6.FeatureTypePath] {
+		if ns, ok := fb.NamespaceTable.MaybeEncode(id.Namespace); ok && ns == fb.Namespaces[b6.FeatureTypePath] {
+			b := fb.Map.FindFirstWithTag(id.Value, encoding.NoTag)
+			if len(b) == 0 {
+				continue
+			}
+			var p Path
+			p.Unmarshal(&fb.Namespaces, b)
+			seen := make(map[Reference]struct{}, len(p.Areas))
+			for _, area := range p.Areas {
+				if _, ok := seen[area]; ok {
+					continue
+				}
+				seen[area] = struct{}{}
+				_, ns := area.TypeAndNamespace.Split()
+				for _, am := range f.features[b6.FeatureTypeArea] {
+					if am.Namespaces[b6.FeatureTypeArea] == ns {
+						if a := f.newArea(am, area.Value); a != nil {
+							areas = append(areas, a)
+							break
+						}
+					}
+				}
+			}
+			break
+		}
+	}
+	return areas
 }
 
 func (f *FeaturesByID) findPathsByPoint(id b6.FeatureID, paths []b6.FeatureID) []b6.FeatureID {
